@@ -16,25 +16,26 @@ import (
 )
 
 type c01State struct {
-	b        *Broker
-	och      chan opshell.CLine
-	ich      chan string
-	inCanc   int // times the pre-existing input cancel func was called
-	outCanc  int
-	gKeyIn   string // ghost: ID the attached input stream was opened with
-	gKeyOut  string
-	tearing  bool
-	preKey   string
-	preIn    bool
-	preOut   bool
+	b         *Broker
+	och       chan opshell.CLine
+	ich       chan string
+	inCanc    int // times the pre-existing input cancel func was called
+	outCanc   int
+	gKeyIn    string // ghost: ID the attached input stream was opened with
+	gKeyOut   string
+	tearing   bool
+	preKey    string
+	preIn     bool
+	preOut    bool
 	preNoMore bool
 }
 
 // arbitraryState builds a broker in an arbitrary state satisfying invariant I:
-//   I1  key != ""        => input attached or output attached
-//   I2  X attached       => gKeyX != "" and (key == "" or key == gKeyX)
-//   I3  both attached    => gKeyIn == gKeyOut  (when key != "")                [the property]
-//   I4  tearing          <=> key == "" and something attached
+//
+//	I1  key != ""        => input attached or output attached
+//	I2  X attached       => gKeyX != "" and (key == "" or key == gKeyX)
+//	I3  both attached    => gKeyIn == gKeyOut  (when key != "")                [the property]
+//	I4  tearing          <=> key == "" and something attached
 func arbitraryState(L, Lb int) *c01State {
 	st := &c01State{}
 	st.och = make(chan opshell.CLine, 16)
